@@ -131,12 +131,35 @@ fn tree_spec(name: &str) -> TreeSpec {
             t.insert("f", Spec::File("22\n", false));
             t.insert("d/c", Spec::File("22\n", false));
         }
+        // family E: conflicts at f and at d/c (each outside some pattern sets). L1 and L2 have
+        // the same tree ids and differ only in their conflict labels (as after a rebase of
+        // the conflicted commit), which makes check_out re-materialize the conflicted files.
+        "L1" | "L2" => {
+            t.insert("f", Spec::Conflict(["a\n", "b\n", "c\n"]));
+            t.insert("d/c", Spec::Conflict(["a\n", "b\n", "c\n"]));
+            t.insert("d/e", Spec::File("1\n", false));
+        }
         other => machinery_failure(&format!("unknown tree {other}")),
     }
     t
 }
 
+fn tree_labels(name: &str) -> Option<[&'static str; 3]> {
+    match name {
+        "L1" => Some(["side one", "the base", "side two"]),
+        "L2" => Some(["rebased side one", "rebased base", "rebased side two"]),
+        _ => None,
+    }
+}
+
 fn tree_spec_json(name: &str) -> Value {
+    if let Some(labels) = tree_labels(name) {
+        return json!({"paths": tree_spec_json_paths(name), "conflict_labels_side1_base_side2": labels});
+    }
+    tree_spec_json_paths(name)
+}
+
+fn tree_spec_json_paths(name: &str) -> Value {
     Value::Object(
         tree_spec(name)
             .iter()
@@ -177,12 +200,19 @@ fn build_tree(ws: &TestWorkspace, name: &str) -> MergedTree {
         return MergedTree::resolved(store.clone(), build_term(0));
     }
     let ids = vec![build_term(0), build_term(1), build_term(2)];
-    let tree = MergedTree::new(store.clone(), Merge::from_vec(ids), ConflictLabels::unlabeled())
+    let labels = match tree_labels(name) {
+        Some(l) => ConflictLabels::from_vec(l.iter().map(|s| s.to_string()).collect()),
+        None => ConflictLabels::unlabeled(),
+    };
+    let tree = MergedTree::new(store.clone(), Merge::from_vec(ids), labels.clone())
         .resolve()
         .block_on()
         .unwrap_or_else(|e| machinery_failure(&format!("resolve: {e}")));
-    if tree.tree_ids().is_resolved() {
+    if tree.tree_ids().is_resolved() || tree.tree_ids().num_sides() != 2 {
         machinery_failure("the conflicted tree of the alphabet resolved");
+    }
+    if tree.labels() != &labels {
+        machinery_failure(&format!("resolve() changed the conflict labels of {name}: {:?}", tree.labels()));
     }
     tree
 }
@@ -206,7 +236,8 @@ fn render_tree(tree: &MergedTree) -> BTreeMap<String, String> {
                     .block_on()
                     .unwrap_or_else(|e| machinery_failure(&format!("read_symlink: {e}")))
             ),
-            _ => format!("conflict:{value:?}"),
+            // the materialized file shows the tree's conflict labels, so they are part of the value
+            _ => format!("conflict:{value:?} labels:{:?}", tree.labels().as_slice()),
         };
         m.insert(p, s);
     }
@@ -610,6 +641,8 @@ struct Tally {
     updates_removing_from_dir_with_user_sibling: Counter,
     second_update_removed_user_file_at_path_skipped_before: Counter,
     outside_comparisons: Counter,
+    label_only_updates_with_user_entry_at_conflicted_path_outside_patterns: Counter,
+    label_only_updates_that_rewrote_a_conflicted_file_inside_patterns: Counter,
     update_errors: Counter,
     update_panics_unclaimed: Counter,
     snapshot_problems: Counter,
@@ -797,6 +830,23 @@ fn check_update(c: &UpdateCtx, tally: &Tally) -> Vec<Failure> {
     }
 
     // vacuity bookkeeping
+    if let Update::Checkout(t) = c.update
+        && let Some(labels) = tree_labels(t)
+    {
+        let conflicted: Vec<&str> =
+            tree_spec(t).iter().filter(|(_, s)| matches!(s, Spec::Conflict(_))).map(|(p, _)| *p).collect();
+        if conflicted.iter().any(|p| !in_patterns(&c.pre.patterns, p) && c.pre.disk.files.contains_key(*p)) {
+            tally.label_only_updates_with_user_entry_at_conflicted_path_outside_patterns.inc();
+        }
+        if conflicted.iter().any(|p| {
+            in_patterns(&c.pre.patterns, p)
+                && c.pre.disk.files.get(*p) != c.post.disk.files.get(*p)
+                && matches!(c.post.disk.files.get(*p), Some(DiskEntry { entry: Entry::File { content, .. }, .. })
+                    if String::from_utf8_lossy(content).contains(labels[0]))
+        }) {
+            tally.label_only_updates_that_rewrote_a_conflicted_file_inside_patterns.inc();
+        }
+    }
     let outside_links: Vec<&String> = c
         .pre
         .disk
@@ -1110,6 +1160,43 @@ fn enumerate_cases(thorough: bool) -> Vec<Case> {
             }
         }
     }
+    // family E: conflicted paths inside and outside the patterns, update = the same conflicted
+    // tree with other conflict labels (check_out re-materializes the conflicted files)
+    let mut e_patterns = vec![full()];
+    e_patterns.extend(pattern_sets.iter().cloned());
+    for p0 in &e_patterns {
+        for ob in obstacles_for(&["L1"]) {
+            for snapshot_before in [false, true] {
+                cases.push(Case {
+                    old: "L1".into(),
+                    patterns: p0.clone(),
+                    obstacles: vec![ob.clone()],
+                    snapshot_before,
+                    step1: Update::Checkout("L2".into()),
+                    step2: None,
+                });
+                if thorough {
+                    // ... and back, then widen the patterns
+                    cases.push(Case {
+                        old: "L1".into(),
+                        patterns: p0.clone(),
+                        obstacles: vec![ob.clone()],
+                        snapshot_before,
+                        step1: Update::Checkout("L2".into()),
+                        step2: Some((false, Update::Checkout("L1".into()))),
+                    });
+                    cases.push(Case {
+                        old: "L1".into(),
+                        patterns: p0.clone(),
+                        obstacles: vec![ob.clone()],
+                        snapshot_before,
+                        step1: Update::Checkout("L2".into()),
+                        step2: Some((false, Update::SetSparse(full()))),
+                    });
+                }
+            }
+        }
+    }
     cases
 }
 
@@ -1189,6 +1276,14 @@ fn main() {
             ("updates with a symlink to the outside above a changed path", &t.updates_with_outside_link_above_touched_path),
             ("updates with a symlink to the outside at a changed path", &t.updates_with_outside_link_at_touched_path),
             ("updates emptying a directory that holds a user file", &t.updates_removing_from_dir_with_user_sibling),
+            (
+                "label-only updates with a user entry at a conflicted path outside the patterns",
+                &t.label_only_updates_with_user_entry_at_conflicted_path_outside_patterns,
+            ),
+            (
+                "label-only updates that re-materialized a conflicted file inside the patterns",
+                &t.label_only_updates_that_rewrote_a_conflicted_file_inside_patterns,
+            ),
         ] {
             if c.get() == 0 {
                 machinery_failure(&format!("vacuous: no case with: {name}"));
@@ -1207,6 +1302,10 @@ fn main() {
         "updates_with_symlink_to_outside_at_a_changed_path": t.updates_with_outside_link_at_touched_path.get(),
         "updates_emptying_a_directory_that_holds_a_user_file": t.updates_removing_from_dir_with_user_sibling.get(),
         "outside_directory_comparisons": t.outside_comparisons.get(),
+        "label_only_updates_with_user_entry_at_conflicted_path_outside_patterns":
+            t.label_only_updates_with_user_entry_at_conflicted_path_outside_patterns.get(),
+        "label_only_updates_that_rematerialized_a_conflicted_file_inside_patterns":
+            t.label_only_updates_that_rewrote_a_conflicted_file_inside_patterns.get(),
         "second_updates_that_removed_the_user_file_at_a_path_the_first_update_skipped_(allowed,_see_notes)":
             t.second_update_removed_user_file_at_path_skipped_before.get(),
         "updates_that_failed_without_a_blocked_wanted_path_(not_claimed)": t.update_errors.get(),
@@ -1232,7 +1331,7 @@ fn main() {
     extra.insert("vacuity".into(), vacuity);
     extra.insert(
         "trees".into(),
-        json!(TREE_NAMES.iter().chain(["S1", "S2"].iter()).map(|t| (t.to_string(), tree_spec_json(t))).collect::<BTreeMap<_, _>>()),
+        json!(TREE_NAMES.iter().chain(["S1", "S2", "L1", "L2"].iter()).map(|t| (t.to_string(), tree_spec_json(t))).collect::<BTreeMap<_, _>>()),
     );
     extra.insert("obstacle_kinds".into(), json!(KINDS.iter().map(|k| k.name()).collect::<Vec<_>>()));
     let n_states = states.lock().unwrap().len() as u64;
@@ -1244,7 +1343,9 @@ fn main() {
                either tree, or a sibling in d/; 5 kinds) x {no snapshot, snapshot (quick: not for the two symlink-to-file kinds)}; (B) the same followed by a second check_out \
                (quick: third tree in {T0, T4}, kinds file and symlink-to-outside-directory, T0 without the snapshot; thorough: all) x {no snapshot, \
                snapshot between}; (C, thorough) pairs of obstacles at disjoint locations; (D) sparse patterns: tree S1 under 3 (thorough 4) \
-               pattern sets x obstacles x {widen to everything, other pattern sets, check_out S2 / T0, check_out then widen}. \
+               pattern sets x obstacles x {widen to everything, other pattern sets, check_out S2 / T0, check_out then widen}; (E) tree L1 with 3-sided conflicts at f and d/c under 5 pattern \
+               sets (root, d, f, empty, d/c) x obstacles x {no snapshot, snapshot} x check_out of L2 = the same tree ids with other \
+               conflict labels (thorough: also back to L1, and then widening). \
                Each history is generated once. evaluations = histories executed (those whose obstacle cannot be placed because \
                a parent is a file are not counted); non-trivial = an obstacle lies at, above or below a path whose tree value \
                the first update changes"
